@@ -11,6 +11,24 @@ CHECKS = {
         text='SymTab.tla states every mapping operation as a function Apply(state,event); TLC checks the design laws (innermost look-up, membership=deletion, spelling irrelevance, purity) on all histories up to depth 4 (quick) / 6 (thorough); TLC-generated random behaviours (24 steps) are replayed into the real objects with state comparison after each step, and seeded 30-step histories recorded from the real objects are validated event by event by Trace_SymTab.',
         note='Universe: 4 scope slots, 3 names x 9 spellings, 2 attribute values. Trusted: TLC, SymTab.tla, the projection (raw dict keys, stored tags, parent identities). setdefault return value on SymbolTable is unspecified and exempt.'),
 }
+CHECKS.update({
+    'C06': dict(
+        technique='TLA+ reference semantics (FExpr) + TLA+ reference parser (FParse): TLC enumerates the tree universe, the printed text of every tree is re-read by the reference parser and compared by value in TLC; gfortran pre-flight of the reference',
+        text='ExprUniverse.tla enumerates every tree of operator depth <= 2 (29k, incl. shapes parsing never produces); each is built as a real Loki expression, printed by fgen, tokenised, and Trace_ExprEquiv (TLC) checks that FParse(tokens) has the value of the tree on 45 integer + 45 real valuations; plus seeded deeper trees, logical trees and trees produced by SubstituteExpressions. A sample of printed texts is also executed by gfortran and must agree with FParse+FExpr.',
+        note='Fortran backend only (cgen not covered). Valuations where the tree is undefined or exceeds magnitude 30000 are not judged; real arithmetic exact. Trusted: TLC, FExpr/FParse, the lexer and structural builder in harness/lib_expr.py, gfortran.'),
+    'C08': dict(
+        technique='TLA+ reference semantics FExpr evaluated by TLC on (input tree, simplify(input)) pairs over spec-enumerated and seeded trees x flag subsets; failures classified by the spec (exact-division reading)',
+        text='simplify() is applied to universe trees and seeded trees (integer, real, logical) under subsets of the Simplification flags (all 31 in thorough) and both typings; Trace_ExprEquiv (TLC) demands equal values on every sampled valuation where the input is defined.',
+        note='Rounding is outside the model (exact rationals). Known finding C08-int-division-as-exact is recognised by a second TLC evaluation in which every division is exact.'),
+    'C09': dict(
+        technique='TLA+ reference semantics FExpr: TLC checks every definite answer of symbolic_op against all sampled valuations',
+        text='symbolic_op is called on every ordered pair of a 40-tree integer universe x 6 operators (quick: 500 pairs); Trace_SymCompare accepts a raised call, and a definite answer only if it holds on all 45 valuations where both sides are defined.',
+        note='A wrong definite answer can be missed (finite valuations), never invented. Two known findings (eq/ne guessing, integer division as exact).'),
+    'C10': dict(
+        technique='TLA+ definition of the Fortran DO sequence (LoopRange.tla, laws model-checked) + TLC validation of the helpers results for every bounded range',
+        text='Exhaustive over start, stop in -4..6, step in -3..3 and no step, literal and symbolic bounds: get_pyrange must equal DoSeq; num_iterations, normalized, iteration_number, iteration_index (exported expression trees, evaluated by FExpr in TLC) must agree with DoSeq on every non-empty loop.',
+        note='Consumers (unrolling, constant propagation) are checked by behaviour in C31/C32.'),
+})
 NOT_APPLICABLE = {p: 'check not built yet (work in progress; see DESIGN.md build order)' for p in ALL if p not in CHECKS}
 for e in ENGINES:
     e['serves_properties'] = sorted(CHECKS)
